@@ -485,9 +485,9 @@ changes a `Gen` definition and with it what has to be proved here.
 Deliberately NOT tied (they cannot break the property, so a change there must not raise an alarm): what the mutators
 other than `markAsDeleted` do to `deletedEntries_` and the two branch conditions of `merge()` — both only decide
 whether `merge()` may skip work whose result would be the unchanged list (`Gen.mergeCopies`, `Gen.mergeLoops` are
-emitted for information); whether a check is the first statement (`Check.first`); the generic
-`LocalIndexComparator` (`Gen.genericCompare`; TL = LocalIndex has no attributes and is outside the property's
-quantifier — the `NL` configurations of the harness cover it by correspondence only). -/
+emitted for information); whether a check is the first statement (`Check.first`).  Round four (end of this file) adds: the
+generic `LocalIndexComparator`, the constructor, the statement order of `endResize`, the loop of `renumberLocal`, `merge()` as
+a whole program, both `GlobalLookupIndexSet` constructors and the local index classes. -/
 open Src in
 /-- all seven state checks throw `InvalidIndexSetState` -/
 theorem checks_matches_source :
